@@ -1,6 +1,8 @@
 from abc import ABCMeta, abstractmethod
 from fnmatch import fnmatch
 
+import six
+
 
 class TapeCassette(object):
     """
@@ -152,8 +154,9 @@ class TapeCassette(object):
         if recorded_value is None and match_value is not None:
             return False
 
-        if isinstance(match_value, str):
-            return fnmatch(recorded_value, match_value)
+        if isinstance(match_value, six.string_types):
+            # Patterns can only match string values, any other recorded type is simply not a match
+            return isinstance(recorded_value, six.string_types) and fnmatch(recorded_value, match_value)
 
         return recorded_value == match_value
 
@@ -163,16 +166,20 @@ class TapeCassette(object):
         Check if this is an operator metadata filter and its value is in range
         """
         result = False
-        if metadata_value['operator'] == '=':
-            result = recorded_value == metadata_value['value']
-        if metadata_value['operator'] == '<':
-            result = recorded_value < metadata_value['value']
-        if metadata_value['operator'] == '<=':
-            result = recorded_value <= metadata_value['value']
-        if metadata_value['operator'] == '>':
-            result = recorded_value > metadata_value['value']
-        if metadata_value['operator'] == '>=':
-            result = recorded_value >= metadata_value['value']
+        try:
+            if metadata_value['operator'] == '=':
+                result = recorded_value == metadata_value['value']
+            if metadata_value['operator'] == '<':
+                result = recorded_value < metadata_value['value']
+            if metadata_value['operator'] == '<=':
+                result = recorded_value <= metadata_value['value']
+            if metadata_value['operator'] == '>':
+                result = recorded_value > metadata_value['value']
+            if metadata_value['operator'] == '>=':
+                result = recorded_value >= metadata_value['value']
+        except TypeError:
+            # Values that cannot be compared (missing value, different types) are not a match
+            return False
 
         return result
 
